@@ -61,8 +61,11 @@ func genWire(t *rapid.T, c *Case) {
 			it.Kind = "fail"
 		case k <= 12:
 			it.Kind = "unknown"
-		case k <= 14:
+		case k == 13:
 			it.Kind = "ping"
+		case k == 14:
+			// a frame that fails header decoding part-way (after its sequence number and flags)
+			it.Kind = "junk"
 		case k == 15 && streams < 3:
 			it.Kind = "sopen"
 			open = append(open, streams)
@@ -156,7 +159,46 @@ func run(c Case) kit.Outcome {
 	return kit.Outcome{Invalid: true}
 }
 
+// junkFrame is a frame that decodes its sequence number and heartbeat flags and then fails.
+func junkFrame(enc string, seq uint64) []byte {
+	switch enc {
+	case "code":
+		b := binaryUvarint(seq)
+		b = append(b, 0x01, kit.RefUpgrade(true, true, true, 0)) // upgrade: 1 byte
+		return append(b, 0x05, 'a')                               // method: claims 5 bytes, has 1
+	case "json":
+		return []byte(`{"i":` + fmt.Sprint(seq) + `,"u":"4A==","m":"abc`)
+	default:
+		b := append([]byte{0x08}, binaryUvarint(seq)...)
+		b = append(b, 0x12, 0x01, kit.RefUpgrade(true, true, true, 0))
+		return append(b, 0x1a, 0x05, 'a')
+	}
+}
+
+func binaryUvarint(v uint64) []byte {
+	var b []byte
+	for v >= 0x80 {
+		b = append(b, byte(v)|0x80)
+		v >>= 7
+	}
+	return append(b, byte(v))
+}
+
+// sendMixed writes a batch of well-formed requests and raw junk frames with one write call.
+func sendMixed(cli *kit.ScriptClient, enc string, hdrs []kit.ReqHeader, raws [][]byte) error {
+	var frames [][]byte
+	for i := range hdrs {
+		if raws[i] != nil {
+			frames = append(frames, raws[i])
+		} else {
+			frames = append(frames, kit.RefEncodeRequest(enc, hdrs[i]))
+		}
+	}
+	return cli.SendFrames(frames)
+}
+
 type sent struct {
+	raw     []byte
 	item    Item
 	seq     uint64
 	id      uint64
@@ -168,7 +210,7 @@ func runWire(c Case) kit.Outcome {
 	nopen := 0
 	for _, it := range c.Items {
 		switch it.Kind {
-		case "call", "fail", "unknown", "ping":
+		case "call", "fail", "unknown", "ping", "junk":
 		case "sopen":
 			nopen++
 		case "sdata", "sclose":
@@ -260,6 +302,7 @@ func runWire(c Case) kit.Outcome {
 	}
 	var frames []*sent
 	var hdrs []kit.ReqHeader
+	var raws [][]byte // non-nil: the frame is sent as these raw bytes (junk)
 	streamSeq := []uint64{}
 	streamClosed := map[int]bool{}
 	var gated []uint64
@@ -281,6 +324,19 @@ func runWire(c Case) kit.Outcome {
 		case "unknown":
 			s.args = kit.MakePayload(s.id, kit.DirEcho, it.Salt, it.Size)
 			h.Method, h.Args, s.expects = fmt.Sprintf("S.No%d", i), s.args, 1
+		case "junk":
+			// heartbeat flags, then a method field that claims more bytes than the frame holds
+			raw := junkFrame(c.Enc, s.seq)
+			if !c.Unix {
+				if err := cli.SendRaw(raw); err != nil {
+					return kit.Undecided("send: %v", err)
+				}
+			}
+			s.raw = raw
+			hdrs = append(hdrs, kit.ReqHeader{})
+			raws = append(raws, raw)
+			frames = append(frames, s)
+			continue
 		case "ping":
 			h.Upgrade, s.expects = []byte{kit.RefUpgrade(true, true, true, 0)}, 1
 		case "sopen":
@@ -309,6 +365,7 @@ func runWire(c Case) kit.Outcome {
 			}
 		}
 		hdrs = append(hdrs, h)
+		raws = append(raws, nil)
 		frames = append(frames, s)
 	}
 	// deliver in batches: released from the held frame link, or one write call per batch
@@ -323,7 +380,7 @@ func runWire(c Case) kit.Outcome {
 			b = left
 		}
 		if c.Unix {
-			if err := cli.SendBatch(hdrs[off : off+b]); err != nil {
+			if err := sendMixed(cli, c.Enc, hdrs[off:off+b], raws[off:off+b]); err != nil {
 				return kit.Undecided("send: %v", err)
 			}
 			off += b
@@ -405,7 +462,7 @@ func runWire(c Case) kit.Outcome {
 	for _, f := range frames {
 		sentIDs[f.id] = f
 		switch f.item.Kind {
-		case "call", "fail", "unknown", "ping":
+		case "call", "fail", "unknown", "ping", "junk":
 			unaryBySeq[f.seq] = f
 		}
 	}
@@ -424,7 +481,7 @@ func runWire(c Case) kit.Outcome {
 		if f == nil {
 			return kit.Fail("phantom-execution", "a handler ran for request id %d which was never sent", id)
 		}
-		if f.item.Kind == "ping" || f.item.Kind == "unknown" || f.item.Kind == "sopen" || f.item.Kind == "sclose" || f.item.Kind == "sdata" {
+		if f.item.Kind == "ping" || f.item.Kind == "unknown" || f.item.Kind == "sopen" || f.item.Kind == "sclose" || f.item.Kind == "sdata" || f.item.Kind == "junk" {
 			return kit.Fail("phantom-execution", "a unary handler ran for a %s frame (id %d)", f.item.Kind, id)
 		}
 		if len(es) > 1 {
@@ -520,6 +577,9 @@ func runWire(c Case) kit.Outcome {
 	}
 	if kinds["sopen"] {
 		out.Classes = append(out.Classes, "stream-traffic")
+	}
+	if kinds["junk"] {
+		out.Classes = append(out.Classes, "malformed-frame-between-requests")
 	}
 	return out
 }
